@@ -154,7 +154,7 @@ def run_lib(desc):
         years = sorted({tax_year_of(pdate(t["date"])) for t in txs})
         yf = rng.choice(years + [years[0] - 1, years[-1] + 1]) if rng.random() < 0.3 else None
         cases.append((txs, cfg, missing, yf))
-    reqs = [lc.calc_case(t, exemptions=cfg, year=yf, fx="bundled" if is_fx else None) for t, cfg, _, yf in cases]
+    reqs = [lc.calc_case(t, exemptions=cfg, year=yf, fx="bundled" if is_fx else None, front=True) for t, cfg, _, yf in cases]
     obs = probe().run(reqs)
     for (txs, cfg, missing, yf), o in zip(cases, obs):
         ex = {int(k): fr(a) for k, a in cfg.items()}
@@ -308,7 +308,7 @@ def replay(case):
         return vs, {"report_years": [(y["period"], y["exempt_amount"]) for y in (rep or {}).get("tax_years", [])]}
     is_fx = bool(case.get("fx"))
     to_gbp = fxm.converter(fxm.Table(known_codes())) if is_fx else hmrc.gbp_identity
-    o = probe().one(lc.calc_case(case["txs"], exemptions=case["exemptions"], year=case.get("year"), fx=case.get("fx")))
+    o = probe().one(lc.calc_case(case["txs"], exemptions=case["exemptions"], year=case.get("year"), fx=case.get("fx"), front=True))
     vs = []
     if "ok" in o:
         ex = {int(k): fr(a) for k, a in case["exemptions"].items()}
